@@ -52,8 +52,9 @@ var panicTable = map[string]tabEntry{
 }
 
 var divTable = map[string]tabEntry{
-	"queryer.(*MultiOpQueryer).Query/divide-by queryer.MultiOpQueryer.maxBatchSize": {1,
-		"precondition of C11 (m >= 1); every constructor call inside the module passes a constant >= 1 (rule R13j); when m == 0 and there are inputs the division is reached, so R13j is the discharge"},
+	// (empty: the one division of the module, by MultiOpQueryer.maxBatchSize, is discharged by
+	// computation — R7.P6 divisorFieldPositive. The former entry cited a rule "R13j" that was
+	// never implemented: fourth audit)
 }
 
 var nilTable = map[string]tabEntry{
